@@ -15,7 +15,9 @@ O = lambda s: int(s, 8)  # noqa: E731
 
 TOPOS = {
     # chain of depth 4 with a second branch: routes of up to 8 hops
-    "chain": [O(x) for x in ("0", "1", "11", "111", "1111", "2", "22", "222", "2222")],
+    # (the second branch uses the digits 4 and 5: addresses above 0o3777 need all 12 address bits,
+    # and child number 5 shares its parent's pipe 5 with the grandparent)
+    "chain": [O(x) for x in ("0", "1", "11", "111", "1111", "5", "45", "445", "4445")],
     # bushy 3-level tree
     "bushy": [O(x) for x in ("0", "1", "2", "3", "5", "11", "21", "51", "12", "32", "15", "111", "211")],
     # mixed routing-only / full nodes
@@ -230,7 +232,7 @@ def build_items(tier, seed):
                 items.append((cases[i:i + 12], 0))
     # E-DFS over per-delivery latency deviations on selected routes
     dev = 1 if tier == "quick" else 2
-    sel = [("chain", O("1111"), O("0")), ("chain", O("0"), O("2222")), ("chain", O("11"), O("22")), ("chain", O("1"), O("11")),
+    sel = [("chain", O("1111"), O("0")), ("chain", O("0"), O("4445")), ("chain", O("11"), O("45")), ("chain", O("1"), O("11")),
            ("mixed", O("11"), O("112")), ("bushy", O("111"), O("32"))]
     for topo, s, d in sel:
         for mlen, mtype in ((1, 1), (24, 65), (25, 1)) + (((49, 65),) if tier == "thorough" else ()):
